@@ -33,11 +33,16 @@ theorem cluster_blocks_in_data_region (v : FatVolume) (hg : WFGeom v) (c j : Nat
     regionOf v (clusterToBlock v c + j) = .data :=
   Lemmas.FatLens.cluster_blocks_in_data_region v hg c j hc2 hc hj
 
-/-- Distinct clusters have disjoint blocks. -/
+/-- Distinct clusters have disjoint blocks.  The clusters must be ordinary ones: the reserved id
+`CLUSTER_ROOT_DIR` is an alias (`clusterToBlock` maps it to the FAT32 root's first cluster / the
+FAT16 fixed root), so without `hr`/`hr'` the statement is false — e.g. on FAT32
+`clusterToBlock v CLUSTER_ROOT_DIR = clusterToBlock v v.firstRootDirCluster`.  Every cluster below
+`endCluster v` satisfies the hypothesis (`Lemmas.FatLens.lt_end_ne_root`). -/
 theorem cluster_blocks_disjoint (v : FatVolume) (hg : WFGeom v) (c c' j j' : Nat) (hc2 : 2 ≤ c) (hc2' : 2 ≤ c')
+    (hr : c ≠ Gen.CLUSTER_ROOT_DIR) (hr' : c' ≠ Gen.CLUSTER_ROOT_DIR)
     (hj : j < v.blocksPerCluster) (hj' : j' < v.blocksPerCluster)
     (h : clusterToBlock v c + j = clusterToBlock v c' + j') : c = c' ∧ j = j' :=
-  Lemmas.FatLens.cluster_blocks_disjoint v hg c c' j j' hc2 hc2' hj hj' h
+  Lemmas.FatLens.cluster_blocks_disjoint v hg c c' j j' hc2 hc2' hr hr' hj hj' h
 
 /-- The regions are what they say: a block classified `fat`, `root`, `data` or `info` is inside the
 partition and is neither block 0 … nor the boot sector. -/
